@@ -1,5 +1,6 @@
-(* C17: executable restatement of Spec.pos_ok / pos_ok_eof, used only by Run.v to judge what the
-   IMPLEMENTATION printed against the specification (no model involved).  Definitions only.
+(* C17: executable restatement of Spec.pos_ok / pos_ok_eof, used by Run.v to judge what the
+   IMPLEMENTATION printed against the specification (no model involved).  Definitions only; proved
+   equivalent to the Prop specification in OracleProofs.v.
    [excerpt_chk] searches the (few) admissible placements of the quoted excerpt in the line.
    ctx = true also demands the amount of context proved for getLineByOffset on the whole contents
    (>= 45 bytes before the caret unless the excerpt starts the line, >= 61 bytes unless it reaches the
@@ -26,36 +27,35 @@ Definition utf8b (s : list N) : bool := utf8b_aux (length s) s.
 
 Definition slice (s : list N) (a b : nat) : list N := firstn (b - a) (skipn a s).
 
-(* length of the well-formed encoding starting at the head of s (0 if none) *)
-Definition enc_len_at (s : list N) : nat :=
-  if wf_enc (firstn 1 s) then 1 else if wf_enc (firstn 2 s) then 2
-  else if wf_enc (firstn 3 s) then 3 else if wf_enc (firstn 4 s) then 4 else 0.
-
 Section Width.
 Variable swidth : list N -> Z.
 
+(* one placement: pre = lc[:a], w = lc[a:p], r = lc[p:b], post = lc[b:], b = a + |ex|.
+   (No let-bound pre/post: extracted OCaml is strict and they can be long; && is lazy.) *)
 Definition placement_ok (ctx strict : bool) (lc : list N) (k' : nat) (ex : list N) (col : Z) (a p : nat) : bool :=
   let n := length lc in
   let b := a + length ex in
-  (a <=? p) && (p <=? k') && (k' <=? p + 3) && (b <=? n) && (p <=? b)
+  let w := slice lc a p in
+  let r := slice lc p b in
+  (a <=? p) && (p <=? k') && (k' <=? p + 3) && (p <=? b) && (b <=? n)
   && list_N_eqb (slice lc a b) ex
-  && Z.eqb col (swidth (slice lc a p))
-  && (length ex <=? 64) && (p - a <=? 51)
-  && (negb ctx || (a =? 0) || (45 <=? p - a))
-  && (negb ctx || (n <=? b + 3) || (61 <=? length ex))
+  && Z.eqb col (swidth w)
+  && (length ex <=? 64) && (length w <=? 51)
+  && (negb ctx || (a =? 0) || (45 <=? length w))
+  && (negb ctx || (n - b <=? 3) || (61 <=? length ex))
   && (negb strict
-      || (utf8b (slice lc a p) && utf8b (slice lc p b)
-          && negb (is_cont (nth a lc 0%N)) && negb (is_cont (nth b lc 0%N))
+      || (utf8b w && utf8b r
           && (if k' <? n then
-                let e := enc_len_at (skipn p lc) in (1 <=? e) && (k' <? p + e) && (p + e <=? b)
-              else (p =? k') && (b =? n))
-          && (negb ctx || (b =? n) || (61 <=? length ex)))).
+                existsb (fun e => wf_enc (firstn e r) && (e <=? length r) && (k' <? p + e)) [1; 2; 3; 4]
+              else (length r =? 0) && (n - b =? 0) && (p =? k'))
+          && (negb ctx || (n - b =? 0) || (61 <=? length ex))
+          && utf8b (firstn a lc) && utf8b (skipn b lc))).
 
 Definition excerpt_chk (ctx : bool) (lc : list N) (k : nat) (ex : list N) (col : Z) : bool :=
   let k' := Nat.min k (length lc) in
   let strict := utf8b lc in
   existsb (fun a => existsb (fun d => placement_ok ctx strict lc k' ex col a (k' - d)) [0; 1; 2; 3])
-          (0 :: seq (k' - 51) 52).
+          (0 :: seq (k' - 54) 55).
 
 Definition pos_chk (ctx : bool) (c : list N) (o : nat) (ex : list N) (line col : Z) : bool :=
   Z.eqb line (spec_line c o) && excerpt_chk ctx (spec_content c o) (spec_index c o) ex col.
